@@ -275,6 +275,40 @@ impl Domain for NodeDomain {
                 let log_s = log.iter().map(|(k, inp, after, _)| format!("{}:{}:{}", k, inp, after)).collect::<Vec<_>>().join(",");
                 format!("phase tasks={} log={}", tasks_s, log_s)
             },
+            "clk-burst" => {
+                // clk-burst <node> <wall> <n> <off>: on a current-thread runtime a FRESH clock gets n get_time requests that
+                // are only enqueued (each future polled once, the actor cannot run in between), then one caller registers a
+                // remote stamp `off` ms ahead of the wall and asks for the time.  Same output format as clk-phase.
+                let (node, wall, n, off) = (p_u64(t[1]) as u8, p_u64(t[2]), p_u64(t[3]) as usize, p_u64(t[4]));
+                verif_clock::set_wall_ms(Some(wall));
+                verif::take_clock_log();
+                let rt2 = tokio::runtime::Builder::new_current_thread().enable_all().build().expect("rt");
+                let (reg, got, others) = rt2.block_on(async move {
+                    let clock = Clock::new(node);
+                    let mut pending = futures::stream::FuturesUnordered::new();
+                    for _ in 0..n {
+                        let c = clock.clone();
+                        pending.push(Box::pin(async move { c.get_time().await }));
+                    }
+                    // poll every request once: each one enqueues its event and parks
+                    let _ = futures::poll!(futures::StreamExt::next(&mut pending));
+                    let ts = HLCTimestamp::new(Duration::from_millis(wall + off), 3, 201);
+                    clock.register_ts(ts).await;
+                    let got = clock.get_time().await;
+                    let mut others = Vec::new();
+                    while let Some(x) = futures::StreamExt::next(&mut pending).await {
+                        others.push(x.as_u64());
+                    }
+                    (ts.as_u64(), got.as_u64(), others)
+                });
+                let log = verif::take_clock_log();
+                let tasks_s = std::iter::once(format!("r{},g{}", reg, got))
+                    .chain(others.iter().map(|x| format!("g{}", x)))
+                    .collect::<Vec<_>>()
+                    .join(";");
+                let log_s = log.iter().map(|(k, inp, after, _)| format!("{}:{}:{}", k, inp, after)).collect::<Vec<_>>().join(",");
+                format!("phase tasks={} log={}", tasks_s, log_s)
+            },
             "clk-done" => {
                 verif_clock::set_wall_ms(None);
                 "ok".to_string()
